@@ -16,7 +16,15 @@ SQL text, the AST for Python shapes).  Any shape that is not recognised raises T
 * `recycle_zeroes_holding`, `recycle_replaces_claims`, `recycle_failed_to_pending`: what
   Step.after_recycle does unconditionally,
 * `partial_recycle_state`: the state Step.initialize_row writes,
-* `slot_guard`          : the test in front of both task starts in Builder.job_loop,
+* `hash_slot_free`, `job_slot_free`: the tests in front of start_hash_task and of pop_next_job /
+  start_task in Builder.job_loop, each TRANSLATED as an expression (class _SlotTest: comparisons,
+  and/or/not, + - max min, integer literals, inlined single-return helper methods/properties) over
+  len(self.running_tasks) -> nrunning, self.njob -> njob and any int field of Builder that counts
+  the calls of run_promoted_hash_jobs in progress -> nwaiting (_waiting_counters: default 0,
+  written only as `self.X += 1; try: <await ...> finally: self.X -= 1` in that method).  A test
+  that discounts parked tasks is therefore translated, and then refuted in Coq
+  (proofs/LimitsProofs.v: hash_slot_free_sound / job_slot_free_sound fail, model search finds
+  the history); only a vocabulary the model does not know fails closed,
 * structural facts about who may start tasks and who may launch commands (checked here, emitted
   as documentation constants).
 """
